@@ -1,6 +1,7 @@
 import PhpVerif.Model.Term
 import PhpVerif.Lemmas.Term
 import PhpVerif.Lemmas.YY
+import PhpVerif.Lemmas.YYSafe
 import PhpVerif.Gen.Terms7
 import PhpVerif.Gen.Terms5
 import PhpVerif.Gen.Tables7
@@ -119,5 +120,43 @@ theorem parse_no_invention (t : YYTab) (combs : List PosComb) (tbl : PathTable) 
   have hinit := StInv_init hs ({} : TreeSt) (by intro r hr; cases hr)
   have := yyRun_inv hs t _ _ _ c s hinit h
   exact this.2.2.1 r hr
+
+/-! ### The generated parsers never read a table out of range (C01) -/
+
+/-- OBLIGATION (kernel-evaluated on the regenerated LALR tables of php7.go / php5.go): every `yyAct` entry
+    is a state, every state has `yyPact` / `yyChk` / `yyDef` entries, goto bases and production numbers are
+    in range, every state whose default is "consult the exception table" has a well-formed row there,
+    the token translation tables cover every external token number. -/
+theorem tables7_ok : tablesOK Gen.tables7L = true := by decide +kernel
+theorem tables5_ok : tablesOK Gen.tables5L = true := by decide +kernel
+
+/-- C01, the LALR driver: for every token sequence, every semantic action and every number of rounds, the
+    driver model over the real tables never reads a table out of range (in Go: never panics with an index
+    error in `yyPact`, `yyAct`, `yyChk`, `yyDef`, `yyExca`, `yyPgo`, `yyR1`, `yyR2`, `yyTok1-3`).  The only
+    faults left are `underflow` (state stack shorter than a right-hand side — excluded by LALR
+    construction, not proved here) and `sem` (an action outside the translated fragment — none, by
+    `all_paths_translated`). -/
+theorem driver7_no_index_fault {α σ : Type} (sem : YYSem α σ) (aux : σ) (input : Array Nat) (fuel : Nat) (tb : Nat) (i : Int) :
+    yyRun Gen.tables7 sem input fuel (yyInit sem aux) ≠ .error (.index tb i) := by
+  intro h
+  have := yyRun_safe (tabFacts_of_ok tables7_ok) sem input fuel (yyInit sem aux)
+    (yyInit_stackOK Gen.tables7L sem aux (by decide +kernel))
+  have e : Gen.tables7 = Gen.tables7L.toArr := rfl
+  rw [e] at h
+  rw [h] at this
+  exact this
+
+theorem driver5_no_index_fault {α σ : Type} (sem : YYSem α σ) (aux : σ) (input : Array Nat) (fuel : Nat) (tb : Nat) (i : Int) :
+    yyRun Gen.tables5 sem input fuel (yyInit sem aux) ≠ .error (.index tb i) := by
+  intro h
+  have := yyRun_safe (tabFacts_of_ok tables5_ok) sem input fuel (yyInit sem aux)
+    (yyInit_stackOK Gen.tables5L sem aux (by decide +kernel))
+  have e : Gen.tables5 = Gen.tables5L.toArr := rfl
+  rw [e] at h
+  rw [h] at this
+  exact this
+
+/- non-vacuity: a table with an action entry that is not a state is rejected -/
+example : tablesOK { Gen.tables7L with act := [100000 + 5000] } = false := by decide +kernel
 
 end PhpVerif.Parser
